@@ -22,6 +22,7 @@ import DateutilVerif.Base.Calendar
 import DateutilVerif.Base.Time
 import DateutilVerif.Generated.ParserKernels
 import DateutilVerif.Generated.Tables
+import DateutilVerif.Model.TzStr
 
 namespace PM
 open Py
@@ -864,6 +865,38 @@ def offsetOk (n : Int) : Bool :=
 def fixedZone (name : Option Token) (n : Int) : R TzDescr :=
   if offsetOk n then .ok (.fixed name n) else .error .OverflowError
 
+/-- `tz.tzstr(tzdata)` inside `_build_tzinfo`, as far as `parse` is concerned: the zone is built or the constructor
+    raises.  This IS C08's model of the TZ-string parser (`TzStr.tzstr`, the non-POSIX reading `tz.tzstr(s)` uses):
+    `ValueError` for a malformed string ("unknown string format"), `OverflowError` for an offset no `timedelta` holds.
+    `parse()` does not wrap this call, so a malformed TZ string in `tzinfos` lets a plain `ValueError` escape. -/
+def tzstrCtor (s : Token) : R Unit :=
+  match TzStr.tzstr (String.ofList s) false with
+  | .ok _ => .ok ()
+  | .error e => .error e
+
+/-- seconds since ordinal 0 of a naive wall time (whole seconds: the transitions have none finer) -/
+def wallSeconds (t : DT) : Int := Cal.toOrdinal t.y t.m t.d * 86400 + t.hh * 3600 + t.mm * 60 + t.ss
+
+/-- `tzrangebase._isdst(dt)` for `dt = naive.replace(tzinfo=tzstr(s), fold=fold)`: `transitions(dt.year)` is computed at
+    query time and may raise (month 13 passes the constructor: `calendar.IllegalMonthError`, a ValueError) -/
+def strIsdst (z : TzStr.Zone) (t : DT) (fold : Bool) : R Bool :=
+  if !z.hasdst then pure false else do
+  match ← TzStr.transitions z t.y with
+  | none => pure false
+  | some (on, off) =>
+    let w := wallSeconds t
+    let d := if on < off then decide (on ≤ w) && decide (w < off) else !(decide (off ≤ w) && decide (w < on))
+    let amb := decide (off ≤ w) && decide (w < off + (z.dstOff - z.stdOff))
+    if !d && amb then pure (!fold) else pure d
+
+/-- `aware.tzname()` at fold 0 and at fold 1, the two values `_assign_tzname` looks at, for a `tzinfos` TZ string -/
+def strNames (s : Token) (t : DT) : R (Option Token × Option Token) := do
+  let z ← TzStr.tzstr (String.ofList s) false
+  let nm (b : Bool) : Option Token := (if b then z.dstAbbr else z.stdAbbr).map String.toList
+  let d0 ← strIsdst z t false
+  let d1 ← strIsdst z t true
+  pure (nm d0, nm d1)
+
 /-- `_build_tzinfo` + `naive.replace(tzinfo=…)` -/
 def buildTzinfo (tzi : TzInfos) (tzname : Option Token) (tzoffset : Option Int) : R TzDescr := do
   let data : TzData := match tzi with
@@ -878,7 +911,9 @@ def buildTzinfo (tzi : TzInfos) (tzname : Option Token) (tzoffset : Option Int) 
   match data with
   | .obj k => pure (.viaTzinfos (.obj k) tzname)
   | .noneVal => pure (.viaTzinfos .noneVal tzname)
-  | .str s => pure (.viaTzinfos (.str s) tzname)
+  | .str s => do
+    tzstrCtor s                                     -- `tz.tzstr(tzdata)` may raise
+    pure (.viaTzinfos (.str s) tzname)
   | .int n => fixedZone tzname n
   | .bad => throw .TypeError
 
